@@ -75,8 +75,13 @@ func (t *task) Result() interface{} {
 
 func (t *task) reply(result interface{}) {
 	if t != nil {
+		if t.done != nil && isClosed(t.done) {
+			// already completed: task completes only once,
+			// its result must not change after that
+			return
+		}
 		t.result = result
-		if t.done != nil && !isClosed(t.done) {
+		if t.done != nil {
 			close(t.done)
 		}
 	}
